@@ -289,7 +289,8 @@ class StubsStringGenerator:
         already_defined_names = already_defined_names.union(
             inner_class.name for inner_class in class_.classes if inner_class.is_public
         )
-        superclasses = class_.superclasses
+        # `object` is the implicit base of every class: it is neither named after `sub` nor counted as a superclass
+        superclasses = [superclass for superclass in class_.superclasses if superclass != "builtins.object"]
         superclass_info = ""
         superclass_methods_text = ""
         superclass_names = []
